@@ -1,6 +1,6 @@
 (* GENERATED from pyrepseq/nn.py (class SymdelDB: __init__, lookup) by translate/regen_c03.py on every check; do not edit. *)
 From Coq Require Import List Arith Bool ListSet.
-From PV Require Import lib.Str lib.PyDict gen.Gen_c01.
+From PV Require Import lib.Str lib.PyDict lib.Combinations gen.Gen_c01.
 Import ListNotations.
 (* how lookup treats its custom_distance argument *)
 Inductive cdist_arg := CNone | CHamming | CCallable.
@@ -47,3 +47,41 @@ Definition gen_symdeldb_lookup (self_seqs : list str) (self_max_edits : nat) (se
       (iterN j_indices) ans)
     (enumerate seqs2) [].
 End GenSymdelDB.
+
+(* ---- symdel(), self mode (seqs2 is None) ---- *)
+Definition gen_self_is_custom (c : cdist_arg) : bool :=
+  match c with CNone => false | CHamming => false | CCallable => true end.
+Definition gen_self_threshold {D : Type} (is_custom : bool) (max_custom_distance self_max_edits : D) : D :=
+  if is_custom then max_custom_distance else self_max_edits.
+Definition gen_self_distance_used (c : cdist_arg) : nat :=
+  match c with CHamming => 0 | CNone => 1 | CCallable => 2 end.
+
+Section GenSymdelSelf.
+Context {D : Type}.
+Variable iterS : list str -> list str.
+Variable eqD : forall a b : D, {a = b} + {a <> b}.
+Variable custom_distance : str -> str -> D.
+Variable levenshtein : str -> str -> nat.
+Variable gtD : D -> D -> bool.
+
+Definition trip_dec : forall a b : nat * nat * D, {a = b} + {a <> b}.
+Proof. decide equality. decide equality; apply Nat.eq_dec. Defined.
+
+Definition gen_symdel_self (seqs : list str) (max_edits : nat) (is_custom : bool) (threshold : D) : list (nat * nat * D) :=
+  let symdeldb_variant_dict := gen_symdeldb_init iterS seqs max_edits in
+  fold_left (fun ans '(key, values) =>
+      if Nat.eqb (length values) 1 then ans else
+      fold_left (fun ans c =>
+          match c with
+          | [i; j] =>
+          let seq_i := nth i seqs [] in
+          let seq_j := nth j seqs [] in
+          let dist := custom_distance seq_i seq_j in
+          if (gtD dist threshold) then ans else
+          if (is_custom && (Nat.ltb max_edits (levenshtein seq_i seq_j))) then ans else
+          set_add trip_dec (j, i, dist) (set_add trip_dec (i, j, dist) ans)
+          | _ => ans
+          end)
+        (combinations values 2) ans)
+    symdeldb_variant_dict [].
+End GenSymdelSelf.
